@@ -143,6 +143,8 @@ def term_str(t, reg=None, prog=None):
         return "(%s %s %s)" % (term_str(t[2], reg, prog), t[1], term_str(t[3], reg, prog))
     if k == "call":
         return "status#%d" % t[1]
+    if k == "asm":
+        return "asm#%d.out%d" % (t[1], t[2])
     return "%s#%s" % (k, t[1] if len(t) > 1 else "")
 
 
@@ -299,6 +301,13 @@ class FuncAnalysis:
                 if not any(may_overlap(loc, l2) for (l2, _s) in st.may.values()):
                     return ("ld", key[0], i["size"])
             return ("v", i["id"])
+        if o == "extractvalue":
+            b = i["ops"][0]
+            if b[0] == "i" and self.f.insts[b[1]]["op"] == "call" and self.f.insts[b[1]]["callee"][0] == "asm":
+                return ("asm", b[1], i["indices"][0])
+            return ("v", i["id"])
+        if o == "call" and i["callee"][0] == "asm":
+            return ("asm", i["id"], 0)
         if o == "call":
             if i["type"].endswith("*"):
                 a = self.am.of(op)
@@ -953,6 +962,13 @@ class FuncAnalysis:
                     self.learn_class(s2, fct, self.f.bb_of.get(cid))
                     self.note_call_ret(cid, cl)
                     self.add_exit(cl, s2, site + " [callee returned %s]" % ("0" if cl == "z" else "non-zero"))
+        elif self._is_bool(val):
+            # `return cond;` : one exit per truth value, each with the facts of the comparison
+            self.S.retconsts.update((0, 1))
+            for truth, cl in ((True, "nz"), (False, "z")):
+                s2 = st.copy()
+                s2.facts = s2.facts | frozenset(self.cond_facts(self.strip(val), truth, s2))
+                self.add_exit(cl, s2, site + " [condition %s]" % ("true" if truth else "false"))
         else:
             # value not classified: pointer results of inttoptr etc. count as non-null when fresh
             a = self.am.of(val) if val[0] in ("i", "a") else None
@@ -963,6 +979,10 @@ class FuncAnalysis:
             self.S.retconsts.add("unknown")
             self.add_exit("z", st.copy(), site + " [unknown value]")
             self.add_exit("nz", st.copy(), site + " [unknown value]")
+
+    def _is_bool(self, val):
+        v = self.strip(val)
+        return v[0] == "i" and self.f.insts[v[1]]["op"] == "icmp"
 
     def call_has_class(self, cid, cl):
         inst = self.f.insts[cid]
